@@ -211,7 +211,7 @@ PROPS = {
         ],
         "not_decided": [
             "the property is a two-run hyperproperty (same history => same serialized effects in every run and process): NOT decided; only its last clause - values the API hands out compare equal exactly when their contents are equal - is decided, and only for Response (hand-written PartialEq) - where it FAILS on the tree: known finding F5; HttpRequest / HttpResponse / HttpError / HttpHeader derive PartialEq (not checked: seed C11_1 replaces a derive by a hand-written order-insensitive eq and is missed)",
-            "F6, seen and demonstrated but not decided: into_protocol_request emits headers in the request's HashMap iteration order, so the serialized effect of a request with several header names differs between runs",
+            "F6 (known finding): the lemma 'same header contents => same protocol header list' over into_protocol_request's proved contract fails - the list follows the HashMap's iteration order",
             "timer ids from a process-wide counter; select! vs select_biased! (seed C11_2 is caught under C18)",
         ],
     },
